@@ -37,7 +37,7 @@ LEARNERS = ["linear", "knn:proba", "tree:proba", "svc", "onetree:proba", "knn:pr
 
 
 def plan(seed, tier):
-    n = 64 if tier == "quick" else 900
+    n = 64 if tier == "quick" else 3000
     cases = []
     rng = core.seed_seq(seed, "C02", "plan")
     for i in range(n):
